@@ -359,6 +359,8 @@ def single_thread_prefetch(
     RuntimeError: Thread Exception
 
     """
+    # queue.Queue(maxsize <= 0) is an unbounded queue.
+    assert buffer_size > 0, buffer_size
     shutdown = False  # A "Lock" is not necessary
     data_queue = queue.Queue(buffer_size)
     unique_object = object()
